@@ -32,6 +32,7 @@ def check_function(ck, prog, rule, fname, extra_caps=None, assume=None, min_site
         return None
     ck.analysed(f)
     an = B.Analysis(prog, f, caps_for(prog, fname, extra_caps), spec()["contracts"], assume=assume)
+    delegated = set()
     if returns_length_of:
         # the value returned is the length of the string left in that buffer, whenever the engine knows that length exactly
         from sa.linear import le as _le
@@ -39,6 +40,12 @@ def check_function(ck, prog, rule, fname, extra_caps=None, assume=None, min_site
 
         def hook(st, n, orig=orig, an=an, key=returns_length_of):
             if n.k == "ReturnStmt" and n.ch:
+                e_ = n.child(0).strip_all_casts()
+                g_ = prog.fn(e_.get("callee") or "") if e_.k == "CallExpr" else None
+                if g_ is not None and g_.static and key in [a_.strip_all_casts().get("path") for a_ in B.C.call_args(e_)]:
+                    # `return helper(..., buf, cap)`: the helper owes the same obligation for its own parameter (checked below)
+                    delegated.add(g_.name)
+                    return orig(st, n)
                 v = an.value(st, n.child(0))
                 cur = st.slen.get(key)
                 if v is not None and cur is not None and cur[0] == "eq":
@@ -117,7 +124,11 @@ def check_function(ck, prog, rule, fname, extra_caps=None, assume=None, min_site
                 for i_, flags in an.call_lb.get(c.id, {}).items():
                     if flags and all(flags) and i_ < len(g.params) and g.params[i_]["type"].get("tk") in ("int", "enum", "bool"):
                         pre.append((g.params[i_]["name"], ">=", 1))
-                check_function(ck, prog, rule, g.name, extra_caps=sub, assume=pre or None, min_sites=0, only=only, _depth=_depth + 1)
+                rl = None
+                if g.name in delegated and returns_length_of in args:
+                    rl = g.params[args.index(returns_length_of)]["name"]
+                check_function(ck, prog, rule, g.name, extra_caps=sub, assume=pre or None, min_sites=0, only=only, _depth=_depth + 1,
+                               returns_length_of=rl)
                 n += sum(1 for i in ck.instances[before:] if i.rule == rule)
     if n < min_sites:
         ck.anchor_lost(rule, "%s: only %d write sites found (expected >= %d)" % (fname, n, min_sites))
